@@ -484,7 +484,12 @@ def muxGo (c : MCfg) (aud : Nat → Bytes) : List (Nat × List Item) → List (L
       let r := muxGo c aud rest els
       ((blSplit c aud fr).1 ++ (blSplit c aud fr).2 ++ r.1, r.2)
 
-/-- mux.  `none`: an SEI does not parse or an RPU conversion panics; `some (out, true)`: the EL has more
+/-- mux.  Assumptions on the labels (true of hevc_parser's on every stream generated): they are non-decreasing
+within each layer (the EL handler's merge of a NAL into an already buffered frame of the same number is not
+modelled) and below the frame count (NALs labelled with the frame count — e.g. an AUD after the last slice — are
+not written by `finalize`).  RPU conversions are modelled eagerly: the tool converts an EL RPU when it reads it,
+so an unconvertible RPU in EL frames that are never read (EL much longer than BL) does not make it panic.
+`none`: an SEI does not parse or an RPU conversion panics; `some (out, true)`: the EL has more
 frames than the BL — the output is trimmed to the BL length and the exit status is an error. -/
 def mux (c : MCfg) (aud : Nat → Bytes) (conv : Bytes → Option Bytes) (bl el : List Item) :
     Option (List Out × Bool) :=
